@@ -81,6 +81,11 @@ CHECKS = {
          "~20k literals incl. 17-55 digit mantissas at every float range boundary, converted bit-for-bit against core::str::parse; constructed exact midpoints (and midpoint +/- 1 in the last digit) between adjacent floats for every f32 exponent incl. subnormals and every (8th) f64 exponent over up to 24 mantissa patterns, where the correct neighbour is known by construction from big-integer arithmetic; every case pattern / prefix / near miss of the float keywords and of ON/OFF; 27 targets x 8 element kinds with the documented accept list.",
          "Trusted: core::str::parse as correctly-rounding reference (cross-checked against the by-construction expectation on every halfway case), refmodel/bigint.rs, the accept-list table transcribed from the conversions' rustdoc. f64 mantissa space is covered by patterns, not exhaustively.",
          "DESIGN.md section 5 (C08)"),
+ "C09": ("exploration",
+         "exhaustive / structured enumeration of formattable values, each formatted by the real ResponseData impl, decoded by an independent IEEE 488.2 response decoder and parsed back by the library's own parser",
+         "All 8/16-bit integers in decimal and #H/#Q/#B; boundary-directed 32/64-bit integers; all 2^32 f32 bit patterns (thorough; quick: every exponent x ~1050 mantissa patterns + all top-half patterns) and ~270k structured f64 patterns, bit-for-bit; NaN/infinity sentinels; bool; every string up to length 4/5 over quote/separator bytes; blocks of every length 0..120 and around 1000; &str, character, expression data; lists of 0..4 elements; derived-enum variants; every standard error and custom errors with and without extended text.",
+         "Trusted: refmodel/respdec.rs (~250 lines from 488.2 8.7, self-checked), core::str::parse for decoding floats. Float text is judged against the NRf grammar (not the stricter talker form, see DESIGN 3.3); finite floats whose text equals a sentinel are excluded.",
+         "DESIGN.md section 5 (C09)"),
 }
 
 NOT_YET = "check not built yet (planned: DESIGN.md section 5 describes the bounded exhaustive exploration that will decide it)"
